@@ -740,6 +740,13 @@ class InterpBuiltins:
         if isinstance(d, (ListV, SetV, SymSet, DictV, ValuesView)):
             vars_, guard, val = self.generic_iter(d)
             return vars_, guard, val
+        if isinstance(d, str):
+            # 'List[T]' : quantifies over the allocated list objects (any list reference, viewed as a list of T)
+            ty = self.ts.ann_to_type(ast.parse(d, mode='eval').body, 'commander')
+            if isinstance(ty, TList):
+                c = z3.Const('q' + name, Ref)
+                g = z3.And(c != NULL, self.heap.get('alloc', arr(Ref, B))[c], kind_of(c) == KINDS['list'])
+                return [c], g, ListV(c, ty.t)
         if isinstance(d, (ConstSeq, tuple)):
             raise Unsupported('quantifier over a constant sequence: use all(...)')
         raise Unsupported(f'quantifier domain {d!r:.40}')
